@@ -41,7 +41,7 @@ Proof.
     + intros k v Hkv. cbn [is_sigmap set_sigmap] in Hkv. destruct Hkv as [Hkv|Hkv].
       * inversion Hkv; subst. right. exists id, ds. auto.
       * rewrite Hsm in Hkv. apply Hq. assumption.
-  - intros id name gc gs. repeat split.
+  - intros id name gc gs _ _. repeat split.
   - intros st0 id dmx Hq Hin k v Hkv. cbn [is_sigmap set_sigmap] in Hkv. destruct Hkv as [Hkv|Hkv].
     + inversion Hkv; subst. right. exists id, dmx. auto.
     + apply Hq. assumption.
